@@ -323,3 +323,4 @@ fn hash_protocol_id_with_network_id(
         .as_bytes()
         .to_vec()
 }
+#[cfg(p2panda_p2panda_verif)] #[doc(hidden)] pub mod verif_c29;
